@@ -310,15 +310,15 @@ Proof.
     assert (Hw2 : lx_wf (mv (lz l) 2)) by eauto using adv_wf.
     unfold pkr. rewrite pk_mv. change (2 + 0) with 2. rewrite Hp2. cbn [opt_res rbind].
     destruct (negb (is_letter c2)).
-    + eapply safe_bind; [apply shift_bogus_spec; [exact Hw2|left; cbn; lia]|]. cbn beta.
-      intros [[v t] z'] (S1 & S2 & _). cbn [fst snd safe] in *. rewrite Hit.
+    + eapply safe_bind; [apply shift_bogus_spec; [exact Hc|exact Hw2|left; cbn; lia]|]. cbn beta zeta.
+      intros [[[v t] z'] hb] (S1 & S2 & _). cbn [fst snd safe] in *. rewrite Hit.
       apply step_post_plain; [exact Hw|exact Hcl|exact Hit| | | |exact S2|reflexivity|reflexivity].
       * destruct S1 as (B1 & B2 & B3 & B4 & B5). unfold shifted. cbn [mv lbuf lstart lpos] in *.
         rewrite (lx_len_same (lz l) (mv (lz l) 2) eq_refl) in B5. split; [exact B1|]. split; [exact B2|]. split; [exact B3|]. split; [exact B4|lia].
       * destruct S1 as (_ & _ & _ & _ & B5). cbn [mv lpos] in B5. lia.
       * unfold plain_ty. tauto.
-    + eapply safe_bind; [apply shift_endtag_spec; [exact Hw2|cbn; lia]|]. cbn beta.
-      intros [[v t] z'] (S1 & S2 & S3 & S4 & S5). cbn [fst snd safe] in *.
+    + eapply safe_bind; [apply shift_endtag_spec; [exact Hc|exact Hw2|cbn; lia]|]. cbn beta.
+      intros [[[v t] z'] hb] (S1 & S2 & S3 & S4 & S5). cbn [fst snd safe] in *.
       destruct S1 as (B1 & B2 & B3 & B4 & B5 & B6). cbn [mv lbuf lstart lpos] in *.
       rewrite (lx_len_same (lz l) (mv (lz l) 2) eq_refl) in B6.
       cbn [step_post lz intag lerr ltext lattr lhas].
@@ -378,8 +378,8 @@ Proof.
     assert (z = lz l) by (eapply adv_same; eauto). subst z.
     assert (Hlim : lpos (lz l) + 2 <= lx_len (lz l)) by (pose proof (pk_nz_lt _ 1 33 Hw Hp1 ltac:(lia)); lia).
     assert (Ha2 : adv (lz l) (mv (lz l) 2)) by (apply adv_mv; lia).
-    eapply safe_bind; [apply read_markup_spec; [eauto using adv_wf|cbn; lia]|]. cbn beta.
-    intros [[[ty v] t] z'] (S1 & S2 & S3 & S4 & _). cbn [safe]. rewrite Hit.
+    eapply safe_bind; [apply read_markup_spec; [exact Hc|eauto using adv_wf|cbn; lia]|]. cbn beta.
+    intros [[[[ty v] t] z'] hb] (S1 & S2 & S3 & S4 & _). cbn [safe]. rewrite Hit.
     apply step_post_plain; [exact Hw|exact Hcl|exact Hit| | | |exact S2|reflexivity|reflexivity].
     + destruct S1 as (B1 & B2 & B3 & B4 & B5). unfold shifted. cbn [mv lbuf lstart lpos] in *.
       rewrite (lx_len_same (lz l) (mv (lz l) 2) eq_refl) in B5. split; [exact B1|]. split; [exact B2|]. split; [exact B3|]. split; [exact B4|lia].
@@ -391,9 +391,9 @@ Proof.
     assert (Hlim : lpos (lz l) + 1 < lx_len (lz l)) by (pose proof (pk_nz_lt _ 1 63 Hw Hp1 ltac:(lia)); lia).
     assert (Ha1 : adv (lz l) (mv (lz l) 1)) by (apply adv_mv; lia).
     eapply safe_bind.
-    { apply shift_bogus_spec; [eauto using adv_wf|]. right. cbn [mv lstart lpos]. split; [lia|].
+    { apply shift_bogus_spec; [exact Hc|eauto using adv_wf|]. right. cbn [mv lstart lpos]. split; [lia|].
       exists 63. rewrite pk_mv. change (1 + 0) with 1. split; [exact Hp1|lia]. }
-    cbn beta. intros [[v t] z'] (S1 & S2 & _). cbn [fst snd safe] in *. rewrite Hit.
+    cbn beta zeta. intros [[[v t] z'] hb] (S1 & S2 & _). cbn [fst snd safe] in *. rewrite Hit.
     apply step_post_plain; [exact Hw|exact Hcl|exact Hit| | | |exact S2|reflexivity|reflexivity].
     + destruct S1 as (B1 & B2 & B3 & B4 & B5). unfold shifted. cbn [mv lbuf lstart lpos] in *.
       rewrite (lx_len_same (lz l) (mv (lz l) 1) eq_refl) in B5. split; [exact B1|]. split; [exact B2|]. split; [exact B3|]. split; [exact B4|lia].
